@@ -263,7 +263,7 @@ theorem dlex_runes_le (esc : Nat) (b : DockerLex.Bytes) :
     most one overflow page per page of the file into the headers they hand out:
     every chain hop marks a page that was not marked before, so the walk is
     linear in the file whatever the page links say. -/
-theorem bdb_walk_linear (file : RpmDb.Bytes) (rs : List RpmDb.Rope)
+theorem bdb_walk_linear (file : RpmDb.Bytes) (rs : List RpmDb.Hdr)
     (h : RpmDb.Bdb.allHeaders file = some (some rs)) : RpmDb.hops rs ≤ file.length / 512 + 1 := by
   unfold RpmDb.Bdb.allHeaders at h
   split at h; · cases h
